@@ -79,13 +79,12 @@ func C05(c *Ctx) {
 		return
 	}
 	c.R.Fn(fname(walk))
-	// the Step call
+	// the Step call (or the call of the helper that takes the step)
+	site0, stepArgs, nSites := walkStepSite(c, walk, step)
 	var calls []*ssa.Call
-	ssau.Instrs(walk, func(in ssa.Instruction) {
-		if ci, ok := in.(*ssa.Call); ok && ci.Common().StaticCallee() == step {
-			calls = append(calls, ci)
-		}
-	})
+	for i := 0; i < nSites; i++ {
+		calls = append(calls, site0)
+	}
 	for _, an := range ssau.WithAnon(walk)[1:] {
 		ssau.Instrs(an, func(in ssa.Instruction) {
 			if ci, ok := in.(ssa.CallInstruction); ok && ci.Common().StaticCallee() == step {
@@ -147,8 +146,8 @@ func C05(c *Ctx) {
 		c.R.Check(limOK && exitOK && domOK, "C05-R1", "Walk: limit test", c.pos(limitCond), "'i < Control.Limit' guards the body; false edge leaves the loop",
 			fmt.Sprintf("limit test malformed (compares with Control.Limit=%v, false edge exits=%v, guards Step=%v)", limOK, exitOK, domOK))
 	}
-	args := call.Common().Args // s, ctx, st, pending, c, props
-	if len(args) != 6 {
+	args := stepArgs // s, ctx, st, pending, c, props
+	if len(args) != 6 || args[2] == nil || args[3] == nil {
 		c.R.Break("C05: Step call has %d operands", len(args))
 		return
 	}
@@ -407,8 +406,95 @@ func derivesFromCall(v ssa.Value, call *ssa.Call) bool {
 		if ex, ok := d.(*ssa.Extract); ok && ex.Tuple == ssa.Value(call) && ex.Index == 0 {
 			return true
 		}
+		if d == ssa.Value(call) {
+			return true // the step helper's single result (walkStepSite)
+		}
 	}
 	return false
+}
+
+// walkStepSite finds the place in Walk where one step is taken: the call of Step itself, or the call of a helper
+// of package core that calls Step exactly once, outside any loop, on every way through it, and whose result #0 is
+// the stride Step returned or a fresh stride standing in for a missing one.  The operands are given in Step's
+// order (s, ctx, st, pending, c, props), expressed as values of Walk (nil where the helper passes something else).
+func walkStepSite(c *Ctx, walk, step *ssa.Function) (site *ssa.Call, args []ssa.Value, n int) {
+	var direct []*ssa.Call
+	ssau.Instrs(walk, func(in ssa.Instruction) {
+		if ci, ok := in.(*ssa.Call); ok && ci.Common().StaticCallee() == step {
+			direct = append(direct, ci)
+		}
+	})
+	if len(direct) > 0 {
+		return direct[0], direct[0].Common().Args, len(direct)
+	}
+	var sites []*ssa.Call
+	var inner []*ssa.Call
+	ssau.Instrs(walk, func(in ssa.Instruction) {
+		ci, ok := in.(*ssa.Call)
+		if !ok {
+			return
+		}
+		h := ci.Common().StaticCallee()
+		if h == nil || h.Blocks == nil || prog.PkgOf(h) != "core" || h == walk {
+			return
+		}
+		var sc []*ssa.Call
+		ssau.Instrs(h, func(i2 ssa.Instruction) {
+			if c2, ok := i2.(*ssa.Call); ok && c2.Common().StaticCallee() == step {
+				sc = append(sc, c2)
+			}
+		})
+		if len(sc) != 1 || flow.InCycle(sc[0].Block()) {
+			return
+		}
+		for _, b := range h.Blocks {
+			if _, isRet := b.Instrs[len(b.Instrs)-1].(*ssa.Return); isRet && b != h.Recover && !sc[0].Block().Dominates(b) {
+				return
+			}
+		}
+		// result #0: Step's stride, or a fresh one
+		okRes := h.Signature.Results().Len() >= 1
+		for _, b := range h.Blocks {
+			ret, isRet := b.Instrs[len(b.Instrs)-1].(*ssa.Return)
+			if !isRet || len(ret.Results) == 0 {
+				continue
+			}
+			for _, d := range phiDefs(ret.Results[0], nil, map[ssa.Value]bool{}) {
+				if ex, isEx := d.(*ssa.Extract); isEx && ex.Tuple == ssa.Value(sc[0]) && ex.Index == 0 {
+					continue
+				}
+				if cl, isC := d.(*ssa.Call); isC && cl.Common().StaticCallee() != nil && cl.Common().StaticCallee().Name() == "NewStride" {
+					continue
+				}
+				if localFresh(d) {
+					continue
+				}
+				okRes = false
+			}
+		}
+		if !okRes {
+			return
+		}
+		sites = append(sites, ci)
+		inner = append(inner, sc[0])
+	})
+	if len(sites) == 0 {
+		return nil, nil, 0
+	}
+	site = sites[0]
+	h := site.Common().StaticCallee()
+	for _, a := range inner[0].Common().Args {
+		var v ssa.Value
+		if pr, isP := a.(*ssa.Parameter); isP {
+			for i, hp := range h.Params {
+				if hp == pr && i < len(site.Common().Args) {
+					v = site.Common().Args[i]
+				}
+			}
+		}
+		args = append(args, v)
+	}
+	return site, args, len(sites)
 }
 
 // c05LimitProvenance: every value the loop bound can take must be the Limit
